@@ -133,10 +133,67 @@ def run_layout_cases(work, driver, props, cases, tag="main", budget_ms=2500, mem
             clauses = v[1]
             res.violations.append(dict(case=cid, clauses=clauses, where=v[2] if len(v) > 2 else None,
                                        msg=v[3] if len(v) > 3 else None))
-    if res.stats["calls"] != len(cases) * procs:
+    extra_reps = sum(1 for c in cases if c.get("reps"))
+    if res.stats["calls"] < len(cases) * procs or (not extra_reps and res.stats["calls"] != len(cases) * procs):
         raise HarnessError("trace validation consumed %d calls, %d cases were issued" % (res.stats["calls"], len(cases)))
     res.cases = byid
     return res
+
+
+def pipeline_diag(work, driver, cases, limit=400, tag="pipe"):
+    """Layer-2 conformance (DRIFT diagnostics, never verdicts): the first `limit` cases are run again with the stage
+    hook on and every stage snapshot is validated by PipelineTrace.tla against the phase contracts of Pipeline.tla.
+    Returns a model-style dict for the evidence."""
+    import subprocess
+    sub = [dict(c, stages=1, reps=0, case=i + 1) for i, c in enumerate(cases[:limit]) if c.get("p5") != "splines"]
+    if not sub:
+        return None
+    d = work.sub(tag)
+    with open(os.path.join(d, "cases.ndjson"), "w") as fh:
+        for c in sub:
+            fh.write(json.dumps(c, separators=(",", ":")) + "\n")
+    core.run_cases(driver, "run", os.path.join(d, "cases.ndjson"), os.path.join(d, "trace.ndjson"))
+    cfg = os.path.join(d, "P.cfg")
+    with open(cfg, "w") as fh:
+        fh.write("SPECIFICATION PSpec\nCONSTANTS NSMaxNodes = 9 NSMaxEdges = 14 ACCUMULATE = FALSE RESET_TREE = TRUE\nPOSTCONDITION TraceAccepted\nCHECK_DEADLOCK FALSE\n")
+    cmd = core.java_cmd(work, d) + ["-workers", "1", "-metadir", os.path.join(d, "meta"), "-noGenerateSpecTE", "-config", cfg,
+                                    os.path.join(work.specdir, "PipelineTrace.tla")]
+    t0 = time.time()
+    p = subprocess.run(cmd, cwd=d, env=dict(os.environ, VERIF_TRACE=os.path.join(d, "trace.ndjson")), capture_output=True, text=True, timeout=1800)
+    m = core.TLC_STATES_RE.search(p.stdout)
+    stats, drift = None, {}
+    byid = {c["case"]: c for c in sub}
+    shown = 0
+    for line in p.stdout.splitlines():
+        if line.startswith('"STATS '):
+            stats = json.loads(json.loads(line)[6:])
+        elif line.startswith('"DRIFT '):
+            v = json.loads(json.loads(line)[6:])
+            for b in v[3]:
+                drift[b] = drift.get(b, 0) + 1
+            if shown < 5:
+                shown += 1
+                c = byid[v[0]]
+                print("DRIFT spec=Pipeline.tla stage=%d contract=%s component=%d case=%s" % (
+                    v[2], ",".join(v[3]), v[1], json.dumps({k: c[k] for k in ("edges", "p1", "p2", "p4", "p5")}, separators=(",", ":"))[:300]))
+    if p.returncode != 0 or m is None or stats is None or "No error has been found" not in p.stdout:
+        log("[pipe] layer-2 trace validation failed (diagnostic only):\n" + core._tlc_tail(p.stdout + p.stderr)[-1500:])
+        return None
+    if drift:
+        log("[pipe] DRIFT (diagnostic, not a verdict): %s" % json.dumps(drift, sort_keys=True))
+    return dict(name="PipelineTrace.tla: %d stage snapshots of %d calls against the phase contracts of Pipeline.tla (layer 2) and %d network-simplex layerings predicted exactly by NetSimplexOps.tla (layer 3), %d drifting" % (stats["stages"], stats["calls"], stats["l3predictions"], stats["drift"]),
+                generated=int(m.group(1)), distinct=int(m.group(2)), wall=time.time() - t0, ok=True, drift=drift)
+
+
+def t1_model(work, tier):
+    """the composition theorem T1 of Pipeline.tla at small scope"""
+    n = 3 if tier == "quick" else 4
+    r = core.run_tlc(work, "T1", "Pipeline.tla", "SPECIFICATION TSpec\nCONSTANTS TN = %d TM = %d\nINVARIANTS T1_EdgeBagIdentity T1_InstancesPreserved\nCHECK_DEADLOCK FALSE\n" % (n, n),
+                     workers=core.NCPU, tag="t1", timeout=3000)
+    if not r["ok"]:
+        raise HarnessError("Pipeline.tla: composition theorem T1 fails at small scope:\n" + r["out"][-2500:])
+    return dict(name="Pipeline.tla T1 (edge-list surgery is the identity on the edge bag), all lists with <= %d nodes/edges x all reversal sets x all feasible layerings" % n,
+                generated=r["generated"], distinct=r["distinct"], wall=r["wall"], ok=True)
 
 
 def merge_results(a, b):
